@@ -71,6 +71,13 @@ def gen_cases(c):
             op = rng.choice(("H", "N"))
             lines.append("%s %d %s" % (op, seed, hx(b)))
             meta.append((op, seed, b, None))
+    # every start alignment (mod 16) x tail length, a few block counts (the ASan/UBSan pass of the thorough tier sees misaligned loads)
+    for al in range(16):
+        for n in (0, 1, 7, 8, 9, 15, 16, 17, 33):
+            b = content(n, "rand")
+            seed = rng.choice(seeds)
+            lines.append("A %d %d %s" % (al, seed, hx(b)))
+            meta.append(("A", seed, b, None))
     # memory longer than the string
     for n in list(range(0, 20)) + [31, 32, 33, 64]:
         b = content(n + rng.randrange(1, 12), "hi")
@@ -94,7 +101,7 @@ def gen_cases(c):
 
 def expected(m):
     op, seed, data, n = m
-    if op in ("H", "N", "M"):
+    if op in ("H", "N", "M", "A"):
         return murmur64a_py(data, seed)
     if op == "F":
         return fold_py(seed, data)
@@ -126,6 +133,8 @@ def meta_of_line(l):
         return (t[0], int(t[1]), b(t[2]), None)
     if t[0] == "M":
         return ("M", int(t[1]), b(t[3])[:int(t[2])], None)
+    if t[0] == "A":
+        return ("A", int(t[2]), b(t[3]), None)
     if t[0] == "F":
         return ("F", int(t[1]), [b(x) for x in t[2:]], None)
     return ("S", SHARD_SEED, [b(x) for x in t[2:]], int(t[1]))
@@ -133,11 +142,11 @@ def meta_of_line(l):
 
 def main(argv):
     c = Check("C14", argv)
-    tools = ["hx_murmur", "mmhsum", "order_independent_hash", "shard", "train_case", "apply_case"]
+    tools = ["hx_murmur", "mmhsum", "order_independent_hash", "shard", "subtract_lines", "train_case", "apply_case"]
     ok, blog = build_repo(tools)
     if not ok:
         # ICU tools are optional: retry without them
-        tools = tools[:4]
+        tools = tools[:5]
         ok, blog = build_repo(tools)
     if not ok:
         c.broken.append("build of repo working tree failed: " + blog[-800:])
@@ -168,7 +177,7 @@ def main(argv):
             meta.insert(0, meta_of_line(case))
     for l, m in zip(lines, meta):
         op, seed, data, n = m
-        if op in ("H", "N", "M"):
+        if op in ("H", "N", "M", "A"):
             c.count(l, nontrivial=len(data) > 0, bucket="%s/blocks=%d/tail=%d" % (op, min(len(data) // 8, 3), len(data) % 8))
         else:
             c.count(l, nontrivial=len(data) > 0, bucket="%s/pieces=%d" % (op, len(data)))
@@ -190,10 +199,10 @@ def main(argv):
         for l, m, o in zip(lines, meta, out):
             want = str(expected(m))
             if o != want:
-                what = {"H": "MurmurHash64A", "N": "MurmurHashNative", "M": "MurmurHash64A(len shorter than buffer)",
+                what = {"H": "MurmurHash64A", "N": "MurmurHashNative", "A": "MurmurHash64A/Native at a given start alignment", "M": "MurmurHash64A(len shorter than buffer)",
                         "F": "HashCallback fold", "S": "shard index"}[m[0]]
                 c.violation("%s: %s gave %s, reference MurmurHash64A%s says %s (case %s)" % (
-                    "hash-value" if m[0] in "HNM" else ("fold" if m[0] == "F" else "shard-index"), what, o,
+                    "hash-value" if m[0] in "HNMA" else ("fold" if m[0] == "F" else "shard-index"), what, o,
                     " left fold" if m[0] in "FS" else "", want, l[:160]),
                     {"op": what, "case": l, "impl": o, "expected": want, "how": "echo '%s' | hx_murmur" % l[:300]})
 
@@ -316,6 +325,21 @@ def main(argv):
                     " ".join(fargs), l, sorted(got.get(l, [])), SHARD_SEED, nsh, want),
                     {"op": "shard", "args": fargs + ["<%d outputs>" % nsh], "line_hex": hexs(l), "impl_files": sorted(got.get(l, [])), "expected_file": want})
                 break
+    # subtract_lines hashes both files with the same seed: exactly the lines of the subtract file disappear
+    sub = [bytes(rng.choice(b"abcdefgh ") for _ in range(rng.choice((0, 1, 7, 8, 9, 20)))) for _ in range(8)]
+    keep = [l for l in (bytes(rng.choice(b"ijklmnop ") for _ in range(rng.choice((1, 7, 8, 9, 20)))) for _ in range(8)) if l not in sub]
+    fsub = os.path.join(SCRATCH, "subtract")
+    open(fsub, "wb").write(b"".join(l + b"\n" for l in sub))
+    mixed = sub[:4] + keep + sub[4:] + keep[:2]
+    st, so, se = run_tool([repo_bin("subtract_lines"), fsub], stdin=b"".join(l + b"\n" for l in mixed), timeout=60)
+    c.count(("subtract_lines",), bucket="tool/subtract_lines-seeds")
+    c.cov["traces_validated_against_impl"] += 1
+    want = b"".join(l + b"\n" for l in mixed if l not in sub)
+    if st != 0 or so != want:
+        c.violation("tool/subtract_lines: the lines of the subtract file were not removed exactly (insert and lookup hash differently?): output %r, expected %r" % (so[:200], want[:200]),
+                    {"op": "subtract_lines", "subtract_hex": hexs(b"".join(l + b"\n" for l in sub)), "stdin_hex": hexs(b"".join(l + b"\n" for l in mixed)),
+                     "stdout_hex": hexs(so), "expected_hex": hexs(want)})
+
     # train_case writes keys, apply_case must find them again
     if "train_case" in tools:
         pairs = [(b"haus", b"House"), (b"Der", b"The"), (b"x" * 9, b"Yy"), (b"klein", b"little"), (b"\xc3\xa9t\xc3\xa9", b"Summer"), (b"ab", b"Q")]
